@@ -100,6 +100,7 @@ type cluster struct {
 	pidNext    int64
 	lastFaultUs int64
 	// hooks for scenario oracles
+	discarding bool // the response being computed will never reach the client
 	onView    func()
 	onDialFail func()
 	onFault    func(kind string)
@@ -497,6 +498,12 @@ func (cl *cluster) respondHeld(c *simConn, resp []byte) {
 		}
 		c.mu.Lock()
 		c.answered++
+		if len(resp) >= 8 {
+			if c.deliveredCorr == nil {
+				c.deliveredCorr = map[int32]bool{}
+			}
+			c.deliveredCorr[int32(uint32(resp[4])<<24|uint32(resp[5])<<16|uint32(resp[6])<<8|uint32(resp[7]))] = true
+		}
 		c.mu.Unlock()
 		c.deliver(resp)
 	})
@@ -642,7 +649,9 @@ func (cl *cluster) handle(c *simConn, frame []byte) {
 			cl.k.logf("b%d c%d %s -> fault %s", br.id, c.id, api, fault.Do)
 			cl.noteFault(fault.Do)
 			if fault.Do == "drop-after" {
+				cl.discarding = true
 				cl.dispatch(c, h, body, nil) // applied, response discarded
+				cl.discarding = false
 			}
 			c.serverClose(false)
 			return
@@ -650,7 +659,9 @@ func (cl *cluster) handle(c *simConn, frame []byte) {
 			cl.k.logf("b%d c%d %s -> fault silence", br.id, c.id, api)
 			cl.noteFault("silence")
 			if fault.Append {
+				cl.discarding = true
 				cl.dispatch(c, h, body, nil)
+				cl.discarding = false
 			}
 			return // connection stays busy forever
 		}
